@@ -161,16 +161,30 @@ def strip_comments(src):
     return src
 
 
-def lean_build(mod, translate=None):
+def driver_imports(driver):
+    """TextxVerif modules imported by a driver file (they must be built before `lean --run`)."""
+    mods = []
+    if driver:
+        path = os.path.join(LEAN_DIR, driver)
+        if os.path.exists(path):
+            for line in open(path):
+                m = re.match(r"\s*import\s+(TextxVerif\.[\w.]+)", line)
+                if m:
+                    mods.append(m.group(1))
+    return mods
+
+
+def lean_build(mod, translate=None, driver=None):
     """Regenerate Gen files (if the property has a translator), build the
-    module.  Returns (ok, log)."""
+    property module and everything its driver imports.  Returns (ok, log)."""
     with BuildLock():
         if translate is not None:
             try:
                 translate()
             except Exception:
                 return False, "translator failed:\n" + traceback.format_exc()
-        rc, out, err = sh(["lake", "build", mod], cwd=LEAN_DIR)
+        targets = [mod] + [m for m in driver_imports(driver) if m != mod]
+        rc, out, err = sh(["lake", "build"] + targets, cwd=LEAN_DIR)
         return rc == 0, out + err
 
 
@@ -411,7 +425,7 @@ def run_check(chk: Check, tier="quick", seed=0, replay=None):
     leanchecker = None
     build_ok = True
     if chk.LEAN_MODULE:
-        ok, log = lean_build(chk.LEAN_MODULE, chk.TRANSLATE)
+        ok, log = lean_build(chk.LEAN_MODULE, chk.TRANSLATE, chk.DRIVER)
         if not ok:
             build_ok = False
             problems.append({"kind": "obligation", "what": f"lake build {chk.LEAN_MODULE} failed", "log": log[-4000:]})
@@ -456,10 +470,10 @@ def run_check(chk: Check, tier="quick", seed=0, replay=None):
                 idx.append(i)
         try:
             outs = run_driver_sharded(chk.DRIVER, reqs, shards=procs)
-        except InfraError as e:
-            print(f"INFRA: {e}", file=sys.stderr)
-            outs = None
-            problems.append({"kind": "correspondence", "what": "Lean driver failed", "log": str(e)[-3000:]})
+        except InfraError:
+            # everything the driver imports was built successfully above: a driver that still does not
+            # run is an infrastructure problem (exit 2), not a verdict about the property
+            raise
         if outs is not None:
             for i, o in zip(idx, outs):
                 model_outs[i] = o
